@@ -32,10 +32,18 @@ func (stubChain) QueryBlockHeaderByHeight(height interface{}, cache bool) *types
 func (stubChain) GetAvailableGroupsByMinerId(height uint64, minerId []byte) []*types.Group {
 	return nil
 }
-func (stubChain) GetGroupById(id []byte) *types.Group             { return nil }
+func (stubChain) GetGroupById(id []byte) *types.Group {
+	if g, ok := Groups[string(id)]; ok {
+		return g
+	}
+	return nil
+}
 func (stubChain) GetBlockHeader(height uint64) *types.BlockHeader { return nil }
 
 var Chain = stubChain{}
+
+// Groups known to the stub group chain (id -> group), used by the reward calculator.
+var Groups = map[string]*types.Group{}
 
 // TokenContract is the address the native balance is bound to (storage slots keccak(addr.3)).
 var TokenContract = common.HexToAddress("0x71d9cfd1b7adb1e8eb4c193ce6ffbe19b4aee0db")
@@ -142,6 +150,11 @@ func RefundAddress(height uint64) common.Address {
 // Escrow returns the pending (addr -> amount) map of one height, zero entries dropped.
 func Escrow(adb *account.AccountDB, height uint64) map[common.Address]*big.Int {
 	res := map[common.Address]*big.Int{}
+	// GetAllRefund creates the (empty) account object when it is missing and dereferences nil when the
+	// object was deleted by an earlier IntermediateRoot of the same AccountDB: only read existing ones
+	if !adb.Exist(RefundAddress(height)) {
+		return res
+	}
 	for a, v := range adb.GetAllRefund(RefundAddress(height)) {
 		if v.Sign() != 0 {
 			res[a] = v
@@ -195,4 +208,192 @@ func SortedKeys(m map[string]uint64) []string {
 	}
 	sort.Strings(ks)
 	return ks
+}
+
+// ---- recording StateDB: the ledger primitives the EVM issues, with snapshot/revert markers ----
+type Prim struct {
+	Kind byte // 's' SubBalance, 'a' AddBalance, 'k' Suicide, 'n' Snapshot, 'r' RevertToSnapshot
+	A    common.Address
+	V    *big.Int
+	Id   int
+}
+
+type RecDB struct {
+	*account.AccountDB
+	Prims []Prim
+}
+
+func (r *RecDB) SubBalance(a common.Address, v *big.Int) *big.Int {
+	r.Prims = append(r.Prims, Prim{Kind: 's', A: a, V: new(big.Int).Set(v)})
+	return r.AccountDB.SubBalance(a, v)
+}
+func (r *RecDB) AddBalance(a common.Address, v *big.Int) {
+	r.Prims = append(r.Prims, Prim{Kind: 'a', A: a, V: new(big.Int).Set(v)})
+	r.AccountDB.AddBalance(a, v)
+}
+func (r *RecDB) Suicide(a common.Address) bool {
+	r.Prims = append(r.Prims, Prim{Kind: 'k', A: a})
+	return r.AccountDB.Suicide(a)
+}
+func (r *RecDB) Snapshot() int {
+	id := r.AccountDB.Snapshot()
+	r.Prims = append(r.Prims, Prim{Kind: 'n', Id: id})
+	return id
+}
+func (r *RecDB) RevertToSnapshot(id int) {
+	r.Prims = append(r.Prims, Prim{Kind: 'r', Id: id})
+	r.AccountDB.RevertToSnapshot(id)
+}
+
+// Ev is a model-level ledger event: "V" value movement, "K" suicide, "S" snapshot, "R" revert.
+type Ev struct {
+	Kind string
+	A, B common.Address
+	V    *big.Int
+	Id   int
+}
+
+// ParseTrace groups primitives into events; false when a primitive does not fit a known pattern.
+func ParseTrace(ps []Prim) ([]Ev, bool) {
+	var out []Ev
+	for i := 0; i < len(ps); i++ {
+		p := ps[i]
+		switch p.Kind {
+		case 's':
+			if i+1 < len(ps) && ps[i+1].Kind == 'a' && ps[i+1].V.Cmp(p.V) == 0 {
+				out = append(out, Ev{Kind: "V", A: p.A, B: ps[i+1].A, V: p.V})
+				i++
+			} else {
+				return out, false
+			}
+		case 'a':
+			if i+1 < len(ps) && ps[i+1].Kind == 'k' {
+				out = append(out, Ev{Kind: "K", A: ps[i+1].A, B: p.A, V: p.V})
+				i++
+			} else {
+				return out, false
+			}
+		case 'n':
+			out = append(out, Ev{Kind: "S", Id: p.Id})
+		case 'r':
+			out = append(out, Ev{Kind: "R", Id: p.Id})
+		default:
+			return out, false
+		}
+	}
+	return out, true
+}
+
+// ContractInfo: what the contract executor's BeforeExecute/Execute would do for tx on adb, obtained by
+// running the real BeforeExecute and the real EVM (through RecDB) under a snapshot that is reverted.
+type ContractInfo struct {
+	BeforeOK    bool
+	DecodeOK    bool
+	LimitFee    *big.Int
+	Value       *big.Int
+	IntrinsicOK bool
+	Ran         bool
+	Trace       []Ev
+	Parsed      bool
+	EvmErr      string
+	GasUsed     uint64
+	Created     common.Address
+}
+
+const p026GasCap uint64 = 900000000
+
+func ExtractContract(adb *account.AccountDB, tx *types.Transaction, header *types.BlockHeader) ContractInfo {
+	info := ContractInfo{LimitFee: new(big.Int), Value: new(big.Int)}
+	adb.Prepare(tx.Hash, common.Hash{}, 0)
+	snap := adb.Snapshot()
+	defer adb.RevertToSnapshot(snap)
+	ctx := Ctx()
+	ok, _, _ := executor.GetTxExecutor(tx.Type).BeforeExecute(tx, header, adb, ctx)
+	info.BeforeOK = ok
+	raw, has := ctx["contractData"].(*executor.ContractRawData)
+	info.DecodeOK = has && raw != nil
+	if !info.DecodeOK {
+		return info
+	}
+	info.LimitFee = new(big.Int).Mul(new(big.Int).SetUint64(raw.GasLimit), big.NewInt(1000000000))
+	info.Value = new(big.Int).Set(raw.TransferValue)
+	creation := tx.Target == ""
+	intrinsic, err := executor.IntrinsicGas(raw.AbiData, creation)
+	info.IntrinsicOK = err == nil && raw.GasLimit >= intrinsic
+	if !ok || !info.IntrinsicOK {
+		return info
+	}
+	gasLimit := raw.GasLimit
+	if gasLimit > p026GasCap {
+		gasLimit = p026GasCap
+	}
+	vmCtx := vm.Context{}
+	vmCtx.CanTransfer = vm.CanTransfer
+	vmCtx.Transfer = vm.Transfer
+	vmCtx.GetHash = func(uint64) common.Hash { return common.Hash{} }
+	vmCtx.Origin = common.HexToAddress(tx.Source)
+	vmCtx.Coinbase = common.BytesToAddress(header.Castor)
+	vmCtx.BlockNumber = new(big.Int).SetUint64(header.Height)
+	vmCtx.Time = new(big.Int).SetUint64(uint64(header.CurTime.Unix()))
+	vmCtx.Difficulty = new(big.Int).SetUint64(123)
+	vmCtx.GasPrice = big.NewInt(1000000000)
+	vmCtx.GasLimit = gasLimit - intrinsic
+	rec := &RecDB{AccountDB: adb}
+	evm := vm.NewEVMWithNFT(vmCtx, rec, adb)
+	caller := vm.AccountRef(vmCtx.Origin)
+	var left uint64
+	var eerr error
+	func() {
+		defer func() {
+			if r := recover(); r != nil {
+				eerr = fmt.Errorf("panic: %v", r)
+			}
+		}()
+		if creation {
+			_, info.Created, left, _, eerr = evm.Create(caller, raw.AbiData, vmCtx.GasLimit, raw.TransferValue)
+		} else {
+			adb.SetNonce(caller.Address(), adb.GetNonce(caller.Address())+1)
+			_, left, _, eerr = evm.Call(caller, common.HexToAddress(tx.Target), raw.AbiData, vmCtx.GasLimit, raw.TransferValue)
+		}
+	}()
+	info.Ran = true
+	if eerr != nil {
+		info.EvmErr = eerr.Error()
+	}
+	info.GasUsed = gasLimit - left
+	info.Trace, info.Parsed = ParseTrace(rec.Prims)
+	return info
+}
+
+// RunBlock executes one block with the real VMExecutor loop (situation != "testing": after() runs, i.e.
+// RefundManager.Add of the block's refund requests, reward scheduling, CheckAndMove(height)).
+func RunBlock(w *World, h uint64, groupId []byte, txs ...*types.Transaction) []*types.Receipt {
+	common.SetBlockHeight(h)
+	hd := Header(h)
+	hd.GroupId = groupId
+	b := &types.Block{Header: hd, Transactions: txs}
+	_, rs, _ := core.VerifC06ExecuteBlockCtx(w.ADB, b, "verif")
+	return rs
+}
+
+// RunBlockWith is RunBlock with an explicit castor (proposer id) in the header.
+func RunBlockWith(w *World, h uint64, castor, groupId []byte, txs ...*types.Transaction) []*types.Receipt {
+	common.SetBlockHeight(h)
+	hd := Header(h)
+	if castor != nil {
+		hd.Castor = castor
+	}
+	hd.GroupId = groupId
+	b := &types.Block{Header: hd, Transactions: txs}
+	_, rs, _ := core.VerifC06ExecuteBlockCtx(w.ADB, b, "verif")
+	return rs
+}
+
+var reqId uint64
+
+func NewTx(typ int32, src, tgt, data, extra string) *types.Transaction {
+	reqId++
+	t := &types.Transaction{Source: src, Target: tgt, Type: typ, Data: data, ExtraData: extra, RequestId: reqId, Sign: &common.Sign{}}
+	t.Hash = t.GenHash()
+	return t
 }
